@@ -198,12 +198,19 @@ KArgs(A) ==
          ELSE IF (\A i \in 1..Len(A.pos) : KArg(A.pos[i]) = "all") /\ (\A i \in 1..Len(A.neg) : KArg(A.neg[i]) = "none")
               THEN "all" ELSE "mixed"
 
+KAll(ks) == IF \E i \in 1..Len(ks) : ks[i] = "none" THEN "none"
+            ELSE IF \A i \in 1..Len(ks) : ks[i] = "all" THEN "all"
+            ELSE "mixed"
+
+\* A bare object is the list "on it, or having it as an argument".  That an object that can never match
+\* makes the second alternative impossible too is *not* evident from the shape (an argument item with any
+\* name and an impossible value is not shown as `!`), so a bare pattern is `!` only through its connection.
 KPat(p) ==
-  LET ks == IF p.form = "bare" THEN <<KText(p.conn), KObj(p.obj)>>
-            ELSE <<KText(p.conn), KObj(p.obj), KText(p.name), KArgs(p.args)>>
-  IN IF \E i \in 1..Len(ks) : ks[i] = "none" THEN "none"
-     ELSE IF \A i \in 1..Len(ks) : ks[i] = "all" THEN "all"
-     ELSE "mixed"
+  IF p.form = "bare"
+  THEN LET onIt  == KAll(<<KText(p.conn), KObj(p.obj)>>)
+           asArg == KAll(<<KText(p.conn), IF KObj(p.obj) = "all" THEN "all" ELSE "mixed">>)
+       IN KList(<<onIt, asArg>>, <<>>)
+  ELSE KAll(<<KText(p.conn), KObj(p.obj), KText(p.name), KArgs(p.args)>>)
 
 IsStarPat(p) == KPat(p) = "all"
 IsNonePat(p) == KPat(p) = "none"
